@@ -256,7 +256,7 @@ OTHER = {"C01": _c01, "C02": _c02, "C05": _c05, "C06": _c06, "C11": _c11, "C12":
 
 
 def _c04_extra(seed, quick):
-    return conc_shards("C04", seed, "mixed", 40 if quick else 600, 40 if quick else 400, shards=3) + conc_shards("C04", seed, "held-client", 600 if quick else 20000, 40 if quick else 400, shards=1)
+    return conc_shards("C04", seed, "mixed", 40 if quick else 600, 40 if quick else 400, shards=3) + conc_shards("C04", seed, "held-client", 600 if quick else 20000, 40 if quick else 400, shards=1) + conc_shards("C04", seed, "release", 300 if quick else 20000, 40 if quick else 400, shards=2)
 
 
 def _c08_extra(seed, quick):
@@ -311,8 +311,11 @@ SEQ_ONLY = {
                        "of status, snapshot and total afterwards (weight released, re-put possible, delete of an absent key = KeyDoesNotExist and changes nothing). "
                        "Directed window: the worker is held before it executes the Delete, delete() has returned, all seven read variants are issued from the "
                        "deleting thread and from another thread and must report absent. C-mode mixed histories add the per-key rule 'a value acknowledged before "
-                       "a delete began is never read after that delete returned' under free interleaving.",
-        "require": ["reads_inside_delete_window", "critical:delete-of-absent-key", "critical:delete-of-live-key", "reads_overlapping_a_write_of_the_same_key"],
+                       "a delete began is never read after that delete returned' under free interleaving. The model-free 'release' scenario reads the total and the weight charged for "
+                       "the key before each delete (after its weight was raised and lowered by upserts, also far beyond the limit of the cache, and time-to-live added) and demands that the "
+                       "accepted delete lowers the total by exactly that weight, that a second delete is refused and changes nothing, that the total is zero once every key is deleted and "
+                       "that every key can then be put again.",
+        "require": ["reads_inside_delete_window", "critical:delete-of-absent-key", "critical:delete-of-live-key", "reads_overlapping_a_write_of_the_same_key", "deletes_of_held_keys_judged", "deletes_of_keys_heavier_than_the_cache", "reputs_after_delete_accepted"],
         "extra_shards": _c04_extra,
     },
     "C10": {
